@@ -42,6 +42,7 @@ type Case struct {
 	GoPath     string      `json:",omitempty"` // path of the redirecting handler ("" = /go)
 	NextRedir  bool        `json:",omitempty"` // the consuming handler answers with a redirect of its own (without messages)
 	NextMethod string      `json:",omitempty"` // method of the request that presents the cookie ("" = GET)
+	ClearAfter bool        `json:",omitempty"` // the consuming handler redirects on and THEN calls c.ClearCookie()
 	NextClear  bool        `json:",omitempty"` // the consuming handler ends with c.ClearCookie() - "forget every cookie of this client"
 	NextChain  bool        `json:",omitempty"` // ... and that redirect attaches a message of its own (a chain of flash redirects)
 	NextPath   string      `json:",omitempty"` // path of the consuming handler ("" = /next); nested paths have a default cookie path other than "/"
@@ -145,7 +146,11 @@ func newApp(c Case, s *seen) *fiber.App {
 			if c.NextChain {
 				r.With("chain", "B", '!')
 			}
-			return r.To("/done")
+			err := r.To("/done")
+			if c.ClearAfter {
+				ctx.ClearCookie() // e.g. a logout middleware behind the handler: err := c.Next(); c.ClearCookie(); return err
+			}
+			return err
 		}
 		return ctx.SendString("next")
 	}
@@ -525,7 +530,7 @@ func genStr(t *rapid.T, label string) string {
 
 func genCase(t *rapid.T) Case {
 	c := Case{Status: rapid.SampledFrom([]int{0, 0, 301, 303, 307}).Draw(t, "status"), Strict: rapid.IntRange(0, 9).Draw(t, "strict") == 0,
-		NextRedir: rapid.IntRange(0, 3).Draw(t, "nextredir") == 0, NextChain: rapid.Bool().Draw(t, "nextchain"),
+		NextRedir: rapid.IntRange(0, 3).Draw(t, "nextredir") == 0, NextChain: rapid.Bool().Draw(t, "nextchain"), ClearAfter: rapid.IntRange(0, 2).Draw(t, "clearafter") == 0,
 		GoPath: rapid.SampledFrom([]string{"", "", "/area/go", "/a/b/c/go"}).Draw(t, "gopath"), NextPath: rapid.SampledFrom([]string{"", "", "/app/next/deep", "/users/42/edit"}).Draw(t, "nextpath"),
 		Via: rapid.SampledFrom([]string{"", "", "route", "routeq", "back"}).Draw(t, "via"), NextClear: rapid.IntRange(0, 4).Draw(t, "nextclear") == 0,
 		NextMethod: rapid.SampledFrom([]string{"", "", "", "POST", "PUT"}).Draw(t, "nextmethod")}
